@@ -10,7 +10,9 @@ func init() {
 			technique: "deterministic simulation: seeded library histories on a simulated clock checked against a reference model",
 		}
 	}
-	props["C01"] = lib("each run is one seeded history (layout class, method, xff, initial clock, 3-40 operations: single/batch writes to explicit archives, clock advances incl. jumps beyond a retention, sync, reopen, abandonment) on one file; after every step all archives are read over the whole retention, random, degenerate, sub-step, over-wide and from=0 windows. A run is non-trivial when a probe fired (wrap-around read, stale lap read as NaN, write before the base interval, ring of 1-2 slots, window spanning more than N intervals, archive crossing a page); distinct = distinct case hash")
+	c01 := lib("each run is one seeded history (layout class, method, xff, initial clock, 3-40 operations: single/batch writes to explicit archives, clock advances incl. jumps beyond a retention, sync, reopen, abandonment) on one file; after every step all archives are read over the whole retention, random, degenerate, sub-step, over-wide and from=0 windows. A run is non-trivial when a probe fired (wrap-around read, stale lap read as NaN, write before the base interval, ring of 1-2 slots, window spanning more than N intervals, archive crossing a page); distinct = distinct case hash")
+	c01.quick = tierCfg{runs: 40000, budget: 60}
+	props["C01"] = c01
 	props["C02"] = lib("seeded histories on propagation-heavy layouts (edge, four-level, ratio equal to the finer point count) with explicit-archive writes; after every write the raw state of every coarser level is compared with the model's propagation of the observed finer state. Non-trivial: an aggregate was stored or skipped (by xff or zero known values) at some level; distinct = distinct case hash")
 	props["C03"] = lib("seeded histories of single updates with ages across every retention boundary and of batches mixing in-range, too-old, boundary and duplicate points routed to the best or a named archive; raw slots of all archives before/after each call are compared with the routing model. Non-trivial: boundary-age update, batch mixing stale and fresh points, batch spanning 3 archives; distinct = distinct case hash")
 	props["C04"] = lib("each run is one layout, one clock value and 8-40 queries (boundary x boundary ages around now and every retention edge, random pairs, degenerate, sub-step, from>until, from=0; every archive id in [-3,n+2] and best), each issued against a never-written, a partially written and a fully written file of the layout and compared with the shape model. Non-trivial: a degenerate window on a never-written archive, a window clamped at both ends, or best selecting a coarser archive; distinct = distinct case hash")
